@@ -27,7 +27,8 @@ def _mk(pid):
     def run(ctx):
         thorough = os.environ.get("UJVC_TIER") == "thorough"
         seed = int(os.environ.get("VERIF_SEED", "0") or 0)
-        runs = [(6000, seed + i) for i in range(3)] if thorough else [(1500, seed)]
+        quick_cases = int(os.environ.get("UJVC_QUICK_CASES", "1500") or 1500)   # lowered only by the corpus runners (tools/run_refactorings.sh)
+        runs = [(6000, seed + i) for i in range(3)] if thorough else [(quick_cases, seed)]
         for cases, sd in runs:
             rc, out = _run_probe(pid, cases, sd)
             harness = "VIOLATED HARNESS" in out
